@@ -743,3 +743,28 @@ def show_atom(a):
                 args.append(str(x[1]))
         return '%s(%s)' % (a[1], ', '.join(args))
     return repr(a)
+
+
+def all_labels(p):
+    """Every axis label mentioned in ``p``, free or bound."""
+    out = set()
+
+    def walk(q):
+        for a in q.atoms():
+            k = a[0]
+            if k == 'sym':
+                out.update(x for x in a[2] if x)
+            elif k == 'sum':
+                out.add(a[1]); walk(Poly.from_key(a[2]))
+            elif k == 'pow':
+                walk(Poly.from_key(a[1]))
+            elif k == 'ind':
+                walk(Poly.from_key(a[2]))
+            elif k == 'fn':
+                for x in a[2:]:
+                    if x[0] == 'P':
+                        walk(Poly.from_key(x[1]))
+                    elif x[0] == 'B':
+                        out.add(x[1]); walk(Poly.from_key(x[2]))
+    walk(p)
+    return out
